@@ -175,10 +175,19 @@ def lexical(path: str) -> str:
     return '/' + '/'.join(stack)
 
 
+def scratch_parent():
+    """Parent for the per-case mkdtemp(): a RAM-backed tmpfs when the host has one (the ext4 /tmp of this sandbox
+    needs ~80 ms to create and remove a 25-file tree, tmpfs 1.5 ms); otherwise the tempfile default."""
+    for cand in ('/dev/shm',):
+        if os.path.isdir(cand) and os.access(cand, os.W_OK | os.X_OK):
+            return cand
+    return None
+
+
 class Tree:
     """The scratch tree of one case."""
     def __init__(self, desc) -> None:
-        self.scratch = os.path.realpath(tempfile.mkdtemp(prefix='verif_c18_'))
+        self.scratch = os.path.realpath(tempfile.mkdtemp(prefix='verif_c18_', dir=scratch_parent()))
         self.root_name = desc['root']
         self.base = self.scratch + '/' + desc['base']
         self.root = self.base + '/' + self.root_name
